@@ -56,6 +56,67 @@ type harness struct {
 	khashFor map[common.Address]common.Hash
 	count    func(string)
 	b        *bounds
+	deps     [2][]depObs // depositing creation frames of the last runProgram, per transaction
+}
+
+// depObs: a creation frame whose init code ended in a RETURN of n > 0 bytes
+// (n within the code size limit): the gas it had left then and the price of
+// the deposit.  key = the frame's position in the frame tree (pcs of the call
+// ops leading to it), independent of gas.
+type depObs struct {
+	key        string
+	left, need uint64
+}
+
+func returnedSize(f *tframe) uint64 {
+	if f.last.op == vm.RETURN && f.last.ntop >= 2 && f.last.top[1].IsUint64() {
+		return f.last.top[1].Uint64()
+	}
+	return 0
+}
+
+func collectDeposits(f *tframe, creation bool, key string, out *[]depObs) {
+	if f == nil {
+		return
+	}
+	if creation && f.outcome() == oSuccess && f.last.gas >= f.last.cost {
+		if n := returnedSize(f); n > 0 && n <= maxCodeSize {
+			*out = append(*out, depObs{key, f.last.gas - f.last.cost, n * createDataGas})
+		}
+	}
+	for _, c := range f.calls {
+		collectDeposits(c.child, c.op == vm.CREATE || c.op == vm.CREATE2, fmt.Sprintf("%s/%d", key, c.pc), out)
+	}
+}
+
+// handBack: the gas a finished frame owes its caller, from the observed frame
+// alone.  A frame that ended in an exceptional halt has consumed everything;
+// a frame that ended normally or in REVERT hands back what it had left after
+// its last op; a creation frame additionally pays 200 gas per byte of returned
+// code and has consumed everything if it cannot, or if the code is oversize.
+func handBack(f *tframe, creation bool) (want uint64, class string, ok bool) {
+	oc := f.outcome()
+	if oc != oSuccess && oc != oRevert {
+		return 0, "an exceptional halt", true
+	}
+	if f.last.gas < f.last.cost {
+		return 0, "", false
+	}
+	left := f.last.gas - f.last.cost
+	if oc == oRevert {
+		return left, "REVERT", true
+	}
+	if !creation {
+		return left, "success", true
+	}
+	n := returnedSize(f)
+	switch {
+	case n > maxCodeSize:
+		return 0, "a creation returning oversize code", true
+	case left < n*createDataGas:
+		return 0, "a creation that could not pay its code deposit", true
+	}
+	return left - n*createDataGas, "a completed creation", true
 }
 
 func newHarness(count func(string)) *harness {
@@ -363,6 +424,19 @@ func walk(f *tframe, static bool, txno int, out *[]finding, count func(string)) 
 			}
 			count("calls_with_callee_frame")
 		}
+		if c.haveAfter && c.child != nil && c.gasAfter >= retained {
+			if want, class, ok := handBack(c.child, c.op == vm.CREATE || c.op == vm.CREATE2); ok {
+				count("gas_hand_back_checks")
+				if want == 0 {
+					count("gas_hand_back_checks_frame_consumed_everything")
+				}
+				if got := c.gasAfter - retained; got != want {
+					*out = append(*out, finding{fmt.Sprintf("gas handed back by a frame that ended in %s differs from what the frame had left (%v)", class, c.op),
+						fmt.Sprintf("tx%d depth %d: handed back %d, the frame owed %d (callee's last op %v with gas %d cost %d; caller gas before %d, cost %d, after %d)",
+							txno, f.depth, got, want, c.child.last.op, c.child.last.gas, c.child.last.cost, c.gasBefore, c.cost, c.gasAfter)})
+				}
+			}
+		}
 		if c.haveAfter {
 			count("gas_return_checks")
 			if c.gasAfter < retained {
@@ -407,6 +481,7 @@ func (h *harness) runProgram(p *Program) (outcome string, out []finding, finalWo
 	for i := range codes {
 		codes[i] = compile(p.Bodies[i], i)
 	}
+	h.deps[0], h.deps[1] = h.deps[0][:0], h.deps[1][:0]
 	st, err := state.New(h.roots[0], h.roots[1], h.roots[2], h.db)
 	if err != nil {
 		panic(err)
@@ -441,6 +516,12 @@ func (h *harness) runProgram(p *Program) (outcome string, out []finding, finalWo
 		r.txno = uint64(k)
 		st.Prepare(txHashes[k-1], blockHash, k-1)
 		h.tr.reset()
+		h.deps[k-1] = h.deps[k-1][:0]
+		txGas := txGas
+		if p.TxGas[k-1] != 0 {
+			txGas = p.TxGas[k-1]
+			h.count("tx_with_limited_gas")
+		}
 		cfg := runtime.Config{Origin: addrO, Coinbase: addrCB, BlockNumber: big.NewInt(blockNum), Time: big.NewInt(1600000000),
 			GasLimit: txGas, GasPrice: big.NewInt(int64(k)), Value: big.NewInt(1), State: st, EVMConfig: h.evmCfg}
 		var (
@@ -475,6 +556,17 @@ func (h *harness) runProgram(p *Program) (outcome string, out []finding, finalWo
 				out = append(out, finding{"gas supplied to the callee exceeds what the caller paid at depth 0 (transaction)", txn})
 			}
 			walk(root, false, k, &out, h.count)
+			if want, class, ok := handBack(root, p.Create); ok {
+				h.count("gas_hand_back_checks")
+				if want == 0 {
+					h.count("gas_hand_back_checks_frame_consumed_everything")
+				}
+				if left != want {
+					out = append(out, finding{fmt.Sprintf("gas handed back by a frame that ended in %s differs from what the frame had left (transaction)", class),
+						fmt.Sprintf("%s: left over %d, the entry frame owed %d (last op %v with gas %d cost %d)", txn, left, want, root.last.op, root.last.gas, root.last.cost)})
+				}
+			}
+			collectDeposits(root, p.Create, "", &h.deps[k-1])
 		}
 		// the reference follows
 		ok, created := r.runTx(p, codes, root)
@@ -607,10 +699,11 @@ func Run(r *mc.Run) {
 	}
 	b.fill()
 	r.Rule = "every program of the grammar is enumerated: bodies of K0..K2 = <= max_actions_per_body actions + terminator, total number of actions <= max_actions_total; " +
-		"leaf actions SSTORE(slot0|slot1, tag+txno) / SSTORE(0,0) / LOG1 / CALL(value) to an externally owned account or to an address that does not exist / CREATE and CREATE2 with init code {ok, reverting, oversize, invalid} (each init code first writes storage); " +
-		"entering actions CALL(value 0|1), CALLCODE, DELEGATECALL, STATICCALL to a higher-numbered contract, with gas classes {all, fixed mid-size allotment[, 0]}; " +
-		"terminators STOP/RETURN/REVERT/INVALID/out-of-gas/SELFDESTRUCT(self)/SELFDESTRUCT(other); contracts that are not reachable keep the trivial body so no program is visited twice; programs up to max_actions_total_for_create_entry actions are also entered as a creation transaction (K0's body as init code). " +
-		"Each program is compiled to byte code and run by the real EVM (core/vm/runtime Call/Create, a vm.Tracer attached) as transaction 1 and again as transaction 2 after Finalise on the same StateDB reopened from a committed base. distinct = distinct (outcome of both transactions, final reference world) pairs"
+		"leaf actions SSTORE(slot0|slot1, tag+txno) / SSTORE(0,0) / LOG1 / CALL(value) to an externally owned account or to an address that does not exist / CREATE and CREATE2 with init code {ok, reverting, oversize, invalid, storing+logging then returning a 300-byte runtime code (fails AT CODE DEPOSIT when less than 60000 gas is left)} (each init code first writes storage); " +
+		"entering actions CALL(value 0|1), CALLCODE, DELEGATECALL, STATICCALL to a higher-numbered contract, with gas classes {all, fixed mid-size allotment 22000, creation-sized allotment 90000 = pays CREATE and the init code but not the 300-byte deposit[, 0]}; " +
+		"terminators STOP/RETURN/REVERT/INVALID/out-of-gas/SELFDESTRUCT(self)/SELFDESTRUCT(other); contracts that are not reachable keep the trivial body so no program is visited twice; programs up to max_actions_total_for_create_entry actions are also entered as a creation transaction (K0's body as init code; with the further terminators RETURN(300-byte code) under an unlimited and a 60000 gas limit (deposit not payable) and RETURN(oversize)). " +
+		"Boundary probe: for every program of <= boundary_probe_max_actions_total actions whose entry body does not end in REVERT and that has a creation frame depositing the 300-byte code (programs of <= 1 action: any code), the gas limit of transaction 1 (then of transaction 2) is driven to the least limit at which the first such frame still pays its deposit (= it has exactly the deposit left), and every limit from boundary_probe_window/4 below to boundary_probe_window above it is run; all probing runs are judged like any program. " +
+		"Each program is compiled to byte code and run by the real EVM (core/vm/runtime Call/Create, a vm.Tracer attached) as transaction 1 and again as transaction 2 after Finalise on the same StateDB reopened from a committed base. Besides the reference comparison, every frame's gas hand-back is checked against the observed frame: exceptional halt, unpayable deposit and oversize code hand back nothing, REVERT and success hand back exactly what was left (minus 200 per byte of deposited code). distinct = distinct (outcome of both transactions, final reference world) pairs"
 	r.SetExtra("bounds", b)
 	r.Assume("frames may always fail for lack of gas: where a frame runs out of gas is taken from the real execution (tracer), every other frame outcome is predicted by the reference and compared")
 	r.Assume("gas refunds (SSTORE clear, SELFDESTRUCT) are applied by the state transition, not by the EVM, and are outside this check (C17 covers the refund)")
@@ -628,10 +721,22 @@ func Run(r *mc.Run) {
 			hs[w] = newHarness(func(n string) { r.Count(n, 1) })
 		}
 		h := hs[w]
-		n := 0
+		n, visits := 0, 0
 		b.forEachCompletion(outer[i], l1, l2, func(p *Program, total int) {
-			if n&255 == 0 && r.Expired() {
+			visits++
+			if visits&127 == 1 && r.Expired() {
 				return
+			}
+			run := func(q *Program) {
+				n++
+				oc, fs, wk := h.runProgram(q)
+				if r.Distinct(oc+"|"+wk) && n%50 == 1 {
+					r.Sample(q.String() + " => " + oc)
+				}
+				for _, f := range fs {
+					pc := *q
+					r.Report(mc.Violation{Sig: f.sig, Detail: q.String() + "\n" + f.detail, Input: &pc})
+				}
 			}
 			for _, create := range []bool{false, true} {
 				if create && total > b.CreateTotal {
@@ -639,14 +744,28 @@ func Run(r *mc.Run) {
 				}
 				q := *p
 				q.Create = create
-				n++
-				oc, fs, wk := h.runProgram(&q)
-				if r.Distinct(oc+"|"+wk) && n%50 == 1 {
-					r.Sample(q.String() + " => " + oc)
+				run(&q)
+				h.probe(&q, total, &b, run)
+				if !create || q.Bodies[0].Term != TStop {
+					continue
 				}
-				for _, f := range fs {
-					pc := q
-					r.Report(mc.Violation{Sig: f.sig, Detail: q.String() + "\n" + f.detail, Input: &pc})
+				// creation transactions only: the init code of the transaction
+				// returns runtime code (300 bytes: deposit paid or not, by the
+				// transaction's gas limit) or oversize code
+				for _, t := range b.Terms0Create {
+					limits := []uint64{0}
+					if t == TReturnDep {
+						limits = b.CreateTxGas
+					}
+					for _, g := range limits {
+						q2 := q
+						q2.Bodies[0].Term = t
+						q2.TxGas = [2]uint64{g, g}
+						run(&q2)
+						if g == 0 {
+							h.probe(&q2, total, &b, run)
+						}
+					}
 				}
 			}
 		})
@@ -655,6 +774,95 @@ func Run(r *mc.Run) {
 	})
 	r.SetExtra("programs", atomic.LoadInt64(&programs))
 	r.SetExtra("transactions_executed", 2*atomic.LoadInt64(&programs))
+}
+
+// probe drives the first depositing creation frame of transaction 1, then of
+// transaction 2, of a program that was just run with unlimited gas to its
+// boundary: the least gas limit of that transaction at which the frame still
+// pays its code deposit.  One unit of gas less for the transaction gives a
+// frame at most one unit less, so stepping the limit down by the frame's
+// surplus never overshoots and ends where the frame has EXACTLY the deposit
+// left (bisection is the fallback).  Then every limit from ProbeWindow/4 below
+// to ProbeWindow above the boundary is run: one unit short of the deposit,
+// deposit paid and the creator out of gas right after.  Every probing run is
+// judged like any other program.  Targets: the 300-byte deposits; the one-byte
+// deposits too in programs of at most one action.
+func (h *harness) probe(q *Program, total int, b *bounds, run func(*Program)) {
+	if total > b.ProbeTotal || q.Bodies[0].Term == TRevert {
+		return
+	}
+	var targets [2]string
+	var have [2]bool
+	for t := 0; t < 2; t++ {
+		if len(h.deps[t]) > 0 && (h.deps[t][0].need > createDataGas || total <= 1) {
+			targets[t], have[t] = h.deps[t][0].key, true
+		}
+	}
+	for t := 0; t < 2; t++ {
+		if !have[t] {
+			continue
+		}
+		h.count("probe_targets")
+		var exact, short bool
+		// eval: run with the limit g on transaction t+1; surplus of the target frame (-1: frame absent or deposit not paid)
+		eval := func(g uint64) int64 {
+			pq := *q
+			pq.TxGas = [2]uint64{}
+			pq.TxGas[t] = g
+			run(&pq)
+			h.count("probe_runs")
+			for _, d := range h.deps[t] {
+				if d.key == targets[t] {
+					exact = exact || d.left == d.need
+					short = short || d.left+1 == d.need
+					if d.left >= d.need {
+						return int64(d.left - d.need)
+					}
+					return -1
+				}
+			}
+			return -1
+		}
+		hi := uint64(1) << 19
+		sur := eval(hi)
+		if sur < 0 {
+			h.count("probe_target_not_paid_with_512k_gas")
+			continue
+		}
+		lo := uint64(0) // a limit that does not pay
+		for i := 0; i < 10 && sur > 0 && uint64(sur) < hi; i++ {
+			g := hi - uint64(sur)
+			if s2 := eval(g); s2 >= 0 {
+				hi, sur = g, s2
+			} else {
+				lo = g
+				h.count("probe_step_overshot")
+				break
+			}
+		}
+		if sur > 0 {
+			h.count("probe_fell_back_to_bisection")
+			for hi-lo > 1 {
+				mid := lo + (hi-lo)/2
+				if eval(mid) >= 0 {
+					hi = mid
+				} else {
+					lo = mid
+				}
+			}
+		}
+		for d := -(b.ProbeWindow / 4); d <= b.ProbeWindow; d++ {
+			if g := int64(hi) + int64(d); g > 0 && d != 0 {
+				eval(uint64(g))
+			}
+		}
+		if exact {
+			h.count("probe_boundary_deposit_paid_with_exactly_the_gas_left")
+		}
+		if short {
+			h.count("probe_boundary_deposit_one_gas_short")
+		}
+	}
 }
 
 // Replay re-executes a replay file without the explorer.
